@@ -5,9 +5,10 @@ import os
 import random
 
 
-def materialise(root, tree, order_seed=0):
+def materialise(root, tree, order_seed=0, store=None):
     """Create the tree under `root`; creation order is shuffled (file-system enumeration order
-    must not matter)."""
+    must not matter).  A directory entry with a fourth element "link" is created as a symbolic link to a real
+    directory with that content kept in `store` (a directory outside the tree)."""
     rng = random.Random(order_seed)
     os.makedirs(root, exist_ok=True)
     entries = list(tree)
@@ -17,13 +18,18 @@ def materialise(root, tree, order_seed=0):
         if e[0] == 'f':
             with open(p, 'wb') as f:
                 f.write(e[2].encode('utf-8') if isinstance(e[2], str) else bytes(e[2]))
+        elif len(e) > 3 and e[3] == 'link' and store is not None:
+            os.makedirs(store, exist_ok=True)
+            real = os.path.join(store, 'd%d' % len(os.listdir(store)))
+            materialise(real, e[2], rng.random(), store)
+            os.symlink(real, p)
         else:
-            materialise(p, e[2], rng.random())
+            materialise(p, e[2], rng.random(), store)
 
 
 def snapshot(root):
     out = {}
-    for dirpath, dirs, files in os.walk(root):
+    for dirpath, dirs, files in os.walk(root, followlinks=True):
         for f in files:
             p = os.path.join(dirpath, f)
             rel = os.path.relpath(p, root)
